@@ -1,2 +1,182 @@
-(* Proofs/BedProofsB.v *)
+(* Proofs/BedProofsB.v — BED.Write produces the TAB-joined first N fields and
+   parseLine inverts it. *)
 From Bio Require Import Base.
+From Bio.Model Require Import Bed.
+From Bio.Spec Require Import BedSpec.
+From Bio.Proofs Require Import BedProofs.
+
+Arguments itoa : simpl never.
+Arguments rgb_text : simpl never.
+Arguments ints_text : simpl never.
+Arguments list_calls : simpl never.
+
+(* field k (0-based) as the reader sees it: the written text if k < N, else "" *)
+Definition fN (b : bed) (k : Z) (x : bytes) : bytes := if (b_n b >? k)%Z then x else [].
+
+Definition pfields (b : bed) : list bytes :=
+  [ b_chrom b; itoa (b_start b); itoa (b_end b);
+    fN b 3 (b_name b); fN b 4 (itoa (b_score b)); fN b 5 (b_strand b);
+    fN b 6 (itoa (b_thick_start b)); fN b 7 (itoa (b_thick_end b));
+    fN b 8 (rgb_text (b_rgb b)); fN b 9 (itoa (b_block_count b));
+    fN b 10 (ints_text (b_block_sizes b)); fN b 11 (ints_text (b_block_starts b)) ].
+
+Definition wfields (b : bed) : list bytes := firstn (Z.to_nat (b_n b)) (pfields b).
+
+Definition line_of (b : bed) : bytes := join_with [TAB] (wfields b).
+
+Lemma n_cases (n : Z) : (3 <= n <= 12)%Z ->
+  n = 3%Z \/ n = 4%Z \/ n = 5%Z \/ n = 6%Z \/ n = 7%Z \/ n = 8%Z \/ n = 9%Z \/ n = 10%Z
+  \/ n = 11%Z \/ n = 12%Z.
+Proof. lia. Qed.
+
+Ltac norm_n :=
+  match goal with
+  | |- context [Z.to_nat ?z] =>
+    let k := eval vm_compute in (Z.to_nat z) in change (Z.to_nat z) with k
+  end.
+
+Lemma concat_when c l : concat (when c l) = if c then concat l else [].
+Proof. destruct c; reflexivity. Qed.
+
+Lemma write_line b : (3 <= b_n b <= 12)%Z -> write b = Ok (line_of b ++ [LF]).
+Proof.
+  intros Hn. unfold write, write_calls.
+  assert (E : ((b_n b <? 3) || (b_n b >? 12))%Z = false).
+  { rewrite Z.gtb_ltb. apply orb_false_intro; apply Z.ltb_ge; lia. }
+  rewrite E.
+  f_equal. rewrite !concat_app, !concat_when. cbn [concat]. rewrite !concat_list_calls.
+  unfold line_of, wfields, pfields, fN.
+  destruct (n_cases _ Hn) as [H|[H|[H|[H|[H|[H|[H|[H|[H|H]]]]]]]]]; rewrite H;
+    norm_n; cbn; repeat (rewrite <- app_assoc; cbn); reflexivity.
+Qed.
+
+(* ------------------------------------------------------------------ *)
+(* parseLine on what was written                                        *)
+Lemma opt_atoi_if (c : bool) z : int64 (if c then z else 0%Z) ->
+  opt_atoi (if c then itoa z else []) = Some (if c then z else 0%Z).
+Proof. destruct c; intros H; [apply opt_atoi_itoa, H | reflexivity]. Qed.
+
+Lemma strand_valid_ok s : strand_valid s -> strand_ok s = true.
+Proof. intros [H|[H|[H|H]]]; subst; reflexivity. Qed.
+
+Lemma parse_rgb_if (c : bool) r : rgb_ok (if c then r else (0, 0, 0)) ->
+  parse_rgb (if c then rgb_text r else []) = Some (if c then r else (0, 0, 0)).
+Proof.
+  destruct c; intros H; [| reflexivity].
+  destruct r as [[x y] z]. destruct H as [Hx [Hy Hz]]. apply parse_rgb_text; assumption.
+Qed.
+
+Lemma parse_ints_if (c : bool) l : Forall int64 (if c then l else []) ->
+  parse_ints (if c then ints_text l else []) = Some (if c then l else []).
+Proof. destruct c; intros H; [apply parse_ints_text, H | reflexivity]. Qed.
+
+Lemma pfields_length b : length (pfields b) = 12%nat.
+Proof. reflexivity. Qed.
+
+Lemma wfields_length b : (3 <= b_n b <= 12)%Z -> length (wfields b) = Z.to_nat (b_n b).
+Proof.
+  intros H. unfold wfields. rewrite firstn_length, pfields_length. lia.
+Qed.
+
+Lemma wfields_pad b : (3 <= b_n b <= 12)%Z ->
+  wfields b ++ repeat [] (12 - Z.to_nat (b_n b)) = pfields b.
+Proof.
+  intros Hn. unfold wfields, pfields, fN.
+  destruct (n_cases _ Hn) as [H|[H|[H|[H|[H|[H|[H|[H|[H|H]]]]]]]]]; rewrite H;
+    norm_n; reflexivity.
+Qed.
+
+Lemma parse_fields_pfields b : fields_ok (first_n b) ->
+  parse_fields (b_n b) (pfields b) = Ok (first_n b).
+Proof.
+  intros H. unfold fields_ok in H. cbn [first_n b_chrom b_name b_strand b_start b_end b_score
+    b_thick_start b_thick_end b_rgb b_block_count b_block_sizes b_block_starts] in H.
+  destruct H as (Hchrom & Hhash & Hname & Hstrand & Hs & He & Hsc & Hts & Hte & Hrgb & Hbc
+                 & Hsz & Hst & Hlsz & Hlst).
+  unfold parse_fields, pfields, fN. cbn [nth].
+  rewrite (atoi_itoa _ Hs), (atoi_itoa _ He).
+  rewrite (opt_atoi_if _ _ Hsc).
+  rewrite (strand_valid_ok _ Hstrand). cbn [negb].
+  rewrite (opt_atoi_if _ _ Hts), (opt_atoi_if _ _ Hte).
+  rewrite (parse_rgb_if _ _ Hrgb).
+  rewrite (opt_atoi_if _ _ Hbc).
+  rewrite (parse_ints_if _ _ Hsz), (parse_ints_if _ _ Hst).
+  rewrite Hlsz, Hlst, Z.eqb_refl. cbn [negb].
+  reflexivity.
+Qed.
+
+Lemma parse_line_wfields b : bed_ok b -> parse_line (wfields b) = Ok (first_n b).
+Proof.
+  intros [Hn Hok]. unfold parse_line. rewrite (wfields_length b Hn).
+  assert (E : ((Z.to_nat (b_n b) <? 3) || (12 <? Z.to_nat (b_n b)))%nat = false).
+  { apply orb_false_intro; apply Nat.ltb_ge; lia. }
+  rewrite E, (wfields_pad b Hn), Z2Nat.id by lia.
+  apply parse_fields_pfields, Hok.
+Qed.
+
+(* ------------------------------------------------------------------ *)
+(* the written fields contain no TAB, CR or LF                          *)
+Lemma itoa_if_nob x (c : bool) z : x <> 45 -> (x < 48 \/ 57 < x) ->
+  nob x (if c then itoa z else []).
+Proof. intros; destruct c; [apply itoa_nob; assumption | apply nob_nil]. Qed.
+
+Lemma pfields_nob x b : fields_ok (first_n b) -> memb x [TAB; CR; LF] = true ->
+  Forall (nob x) (pfields b).
+Proof.
+  intros H Hx.
+  assert (X1 : x <> 45) by (intros ->; discriminate).
+  assert (X2 : x <> COMMA) by (intros ->; discriminate).
+  assert (X3 : x < 48 \/ 57 < x).
+  { unfold memb, existsb, TAB, CR, LF in Hx.
+    destruct (x =? 9) eqn:A; [apply N.eqb_eq in A; lia|].
+    destruct (x =? 13) eqn:B; [apply N.eqb_eq in B; lia|].
+    destruct (x =? 10) eqn:C; [apply N.eqb_eq in C; lia|]. discriminate. }
+  unfold fields_ok in H. cbn [first_n b_chrom b_name b_strand] in H.
+  destruct H as (Hchrom & _ & Hname & Hstrand & _).
+  unfold pfields, fN.
+  repeat constructor; try (apply itoa_nob; assumption); try (apply itoa_if_nob; assumption).
+  - eapply clean_nob; [exact Hchrom | exact Hx].
+  - eapply clean_nob; [exact Hname | exact Hx].
+  - destruct Hstrand as [E|[E|[E|E]]]; rewrite E; repeat constructor;
+      apply N.eqb_neq; intros <-; discriminate.
+  - destruct (b_n b >? 8)%Z; [apply rgb_text_nob; assumption | apply nob_nil].
+  - destruct (b_n b >? 10)%Z; [apply ints_text_nob; assumption | apply nob_nil].
+  - destruct (b_n b >? 11)%Z; [apply ints_text_nob; assumption | apply nob_nil].
+Qed.
+
+Lemma Forall_firstn {A} (P : A -> Prop) n l : Forall P l -> Forall P (firstn n l).
+Proof.
+  revert l. induction n as [|n IH]; intros l H; [constructor|].
+  destruct H; cbn [firstn]; constructor; auto.
+Qed.
+
+Lemma wfields_nob x b : fields_ok (first_n b) -> memb x [TAB; CR; LF] = true ->
+  Forall (nob x) (wfields b).
+Proof. intros. apply Forall_firstn, pfields_nob; assumption. Qed.
+
+Lemma wfields_nonnil b : (3 <= b_n b <= 12)%Z -> wfields b <> [].
+Proof.
+  intros Hn E. pose proof (wfields_length b Hn) as L. rewrite E in L. cbn [length] in L. lia.
+Qed.
+
+Lemma split_line b : bed_ok b -> split_on TAB (line_of b) = wfields b.
+Proof.
+  intros [Hn Hok]. unfold line_of. apply split_join.
+  - apply wfields_nonnil, Hn.
+  - apply wfields_nob; [exact Hok | reflexivity].
+Qed.
+
+Lemma line_nob x b : bed_ok b -> x <> TAB -> memb x [TAB; CR; LF] = true -> nob x (line_of b).
+Proof.
+  intros [Hn Hok] Hx Hm. unfold line_of. apply nob_join.
+  - apply nob_cons; [apply N.eqb_neq; congruence | apply nob_nil].
+  - apply wfields_nob; assumption.
+Qed.
+
+(* the line begins with Chrom and a TAB *)
+Lemma line_head b : (3 <= b_n b <= 12)%Z -> exists rest, line_of b = b_chrom b ++ TAB :: rest.
+Proof.
+  intros Hn. unfold line_of, wfields, pfields, fN.
+  destruct (n_cases _ Hn) as [H|[H|[H|[H|[H|[H|[H|[H|[H|H]]]]]]]]]; rewrite H;
+    norm_n; cbn [firstn]; rewrite join_with_cons2; cbn [app]; eexists; reflexivity.
+Qed.
